@@ -1404,15 +1404,15 @@ impl Error {
     #[inline(never)]
     #[cfg_attr(not(feature = "verif_hooks"), allow(dead_code))]
     pub(crate) fn from_scan_error(err: ScanError) -> Self {
-        Self::from_scan_error_in(err, None)
+        Self::from_scan_error_in(err, crate::location::MarkInput::Unknown)
     }
 
-    /// [`Error::from_scan_error`] for an error met in the in-memory input `input`: a mark taken
+    /// [`Error::from_scan_error`] for an error met in the given input: a mark taken
     /// after the end of an input without final line break is reported on the last line
     /// (see [`crate::location::mark_line_and_column`]).
     #[cold]
     #[inline(never)]
-    pub(crate) fn from_scan_error_in(err: ScanError, input: Option<&str>) -> Self {
+    pub(crate) fn from_scan_error_in(err: ScanError, input: crate::location::MarkInput<'_>) -> Self {
         use crate::location::SpanIndex;
         let mark = err.marker();
         let (line, column) = crate::location::mark_line_and_column(mark, input);
